@@ -163,6 +163,17 @@ def check(case, ctx):
                 if list(alt.dims) != co or not np.array_equal(np.asarray(alt.transpose(*cb).values), gv):
                     raise Violation(f"simple grid: {name} differs from the vector form with other_component", component=comp[0])
 
+    # the two-component convenience wrappers give the same pair of results
+    wrapper = grid.diff_2d_vector if case["op"] == "diff" else grid.interp_2d_vector
+    vec = {"X": uda, "Y": vda}
+    both = must_return(f"Grid.{case['op']}_2d_vector", wrapper, vec, **ckw)
+    if list(vec) != ["X", "Y"] or vec["X"] is not uda or vec["Y"] is not vda:
+        raise Violation("the vector dictionary passed to the 2d_vector wrapper was modified")
+    for comp in ("X", "Y"):
+        bv = np.asarray(both[comp].transpose(*cb).values)
+        if bv.shape != results[comp].shape or not np.array_equal(bv, results[comp]):
+            raise Violation("2d_vector wrapper differs from the per-component vector form", component=comp)
+
     if case["op"] == "diff":
         div = results["X"] + results["Y"]
         gdiv = (U[..., :, 1:] - U[..., :, :-1]) + (V[..., 1:, :] - V[..., :-1, :])
